@@ -69,7 +69,7 @@ class PlainName:
             if cls._tx_type is RULE_ABSTRACT:
                 for inherited in cls._tx_inh_by:
                     result = _inner_resolve_link_rule_ref(inherited, obj_name)
-                    if result:
+                    if result is not None:
                         return result
             elif cls._tx_type == RULE_COMMON and id(cls) in get_parser(obj)._instances:
                 # TODO make this code exchangable
